@@ -94,8 +94,13 @@ class AsyncContext(object):
         if is_asyncio_mode():
             self.pause()
         else:
-            leave_context(self, self._active_task)
-            self.pause()
+            active_task = self._active_task
+            leave_context(self, active_task)
+            # If the owning task is suspended, the scheduler has already paused its
+            # contexts (this happens when the task's generator is closed from outside,
+            # e.g. after the task was failed while blocked); don't pause a second time.
+            if active_task is None or active_task._contexts_active:
+                self.pause()
             del self._active_task
 
     def resume(self):
